@@ -91,6 +91,18 @@ func guard(step string, f func()) (*guardResult, error) {
 	}
 }
 
+// Guard runs f under the step deadline; it reports a hang as *HangError and a panic as (value, stack).
+func Guard(step string, f func()) (panicVal, stack string, err error) {
+	r, err := guard(step, f)
+	if err != nil {
+		return "", "", err
+	}
+	if r.panicked {
+		return r.val, r.stack, nil
+	}
+	return "", "", nil
+}
+
 // Chain is the L2 block driver: production handlers and blockers executed on a
 // cache-wrapped multistore without IAVL commits.
 type Chain struct {
@@ -99,8 +111,11 @@ type Chain struct {
 	Height  int64 // height of the block currently open (after BeginBlock)
 	Time    time.Time
 	Full    bool   // run all modules' blockers through the module manager
-	Seed    []byte // header AppHash override for the *next* BeginBlock (nil = derived)
+	Seed    []byte // header AppHash override of the current block (SeedSet) 
 	SeedSet bool
+	// NextSeed is the header AppHash of the block opened by the next BeginBlock.
+	NextSeed    []byte
+	NextSeedSet bool
 	InBlock bool
 	// Trace hooks, called around lean blocker steps when non-nil.
 	StepHook func(step string, before bool)
@@ -159,6 +174,8 @@ func (c *Chain) BeginBlock() error {
 	}
 	c.Height++
 	c.Time = c.Time.Add(5 * time.Second)
+	c.Seed, c.SeedSet = c.NextSeed, c.NextSeedSet
+	c.NextSeed, c.NextSeedSet = nil, false
 	ctx := c.Ctx()
 	step := fmt.Sprintf("BeginBlock(%d)", c.Height)
 	r, err := guard(step, func() {
@@ -212,8 +229,6 @@ func (c *Chain) EndBlock() error {
 		return err
 	}
 	c.InBlock = false
-	c.SeedSet = false
-	c.Seed = nil
 	if r.panicked {
 		return &HaltError{Step: step, Value: r.val, Stack: r.stack}
 	}
